@@ -78,6 +78,17 @@ CLAIMED["C01"] = {
     "ref": "DESIGN.md section 5 (C01)",
 }
 
+CLAIMED["C02"] = {
+    "text": "Proof: _get_ident yields (pid, start time since boot) - the epoch creation time (which depends on the "
+            "kernel's boot time and on boot_time() calls) cannot reach the identity; _pslinux create_time(monotonic=True) "
+            "is a function of the stat record alone for arbitrary BOOT_TIME/btime; __eq__/__ne__ compare identities "
+            "(unknown start never equals a known one); __hash__ is hash(ident) with a consistent memo; is_running is "
+            "True exactly while the observed owner of the PID is the very same process and False ever after.",
+    "note": "process-table oracle and stat grammar assumed; same-tick PID reuse not covered (documented assumption of "
+            "the code); Linux branch.",
+    "ref": "DESIGN.md section 5 (C02)",
+}
+
 NOT_YET = "check not built yet (work in progress, see DESIGN.md section 7)"
 NA = {}
 
